@@ -16,6 +16,8 @@ type Model func(ex *Exec, fn *ssa.Function, args []Value) Value
 var models = map[string]Model{}
 var nameModels = map[string]Model{}
 
+var prefixModelHook func(key string) Model
+
 func prefixModel(key string) Model {
 	i := strings.LastIndex(key, ".")
 	name := key[i+1:]
@@ -23,6 +25,9 @@ func prefixModel(key string) Model {
 		if m, ok := nameModels[name]; ok {
 			return m
 		}
+	}
+	if prefixModelHook != nil {
+		return prefixModelHook(key)
 	}
 	return nil
 }
@@ -105,9 +110,18 @@ func init() {
 		return ex.mkStr(bs)
 	}
 	nameModels["verif_nondet_big"] = func(ex *Exec, fn *ssa.Function, args []Value) Value {
-		return &BigVal{ex.ndInt(argStr(ex, args[0]), nil, nil)}
+		p := new(Value)
+		*p = BigVal{ex.ndInt(argStr(ex, args[0]), nil, nil)}
+		return p
 	}
-	nameModels["verif_assume"] = func(ex *Exec, fn *ssa.Function, args []Value) Value {
+	// non-negative big integer below 2^bits
+	nameModels["verif_nondet_ubig"] = func(ex *Exec, fn *ssa.Function, args []Value) Value {
+		bits := ex.concreteInt(args[1], "ubig bits")
+		p := new(Value)
+		*p = BigVal{ex.ndInt(argStr(ex, args[0]), big.NewInt(0), new(big.Int).Sub(pow2(uint(bits)), big.NewInt(1)))}
+		return p
+	}
+	nameModels["verif_assume"] =func(ex *Exec, fn *ssa.Function, args []Value) Value {
 		ex.assume(ex.asTerm(args[0], "assume"))
 		return nil
 	}
@@ -859,6 +873,9 @@ func (ex *Exec) deepEq(a, b Value, depth int) *Term {
 		}
 		return ex.deepEq(*x, *y, depth+1)
 	case Struct:
+		if yb, isb := b.(BigVal); isb {
+			return c.Eq(yb.t, c.Int(0))
+		}
 		y, ok := b.(Struct)
 		if !ok || len(x) != len(y) {
 			return c.tFalse
@@ -934,15 +951,14 @@ func (ex *Exec) deepEq(a, b Value, depth int) *Term {
 			return c.tFalse
 		}
 		return ex.deepEq(x.v, y.v, depth+1)
-	case *BigVal:
-		y, ok := b.(*BigVal)
-		if !ok {
-			return c.tFalse
+	case BigVal:
+		switch y := b.(type) {
+		case BigVal:
+			return c.Eq(x.t, y.t)
+		case Struct:
+			return c.Eq(x.t, c.Int(0))
 		}
-		if x == nil || y == nil {
-			return c.Bool(x == nil && y == nil)
-		}
-		return c.Eq(x.t, y.t)
+		return c.tFalse
 	case Unknown:
 		ex.incon("deep equality over unknown value: %s", x.why)
 	}
